@@ -230,3 +230,33 @@ package ring
 //@   loop 1 invariant forall j int :: 0 <= j && j < $i ==> in(partition.Tokens[j], out)
 //@   loop 1 invariant forall t uint32 :: in(t, out) ==> in(out[t], m.Partitions) && tokOf(m.Partitions, out[t], t)
 //@   modifies nothing
+//@
+//@ # all tokens of all partitions, ascending (slices.Sort: assumed sorted permutation)
+//@ func PartitionRingDesc.tokens
+//@   property C15 C14
+//@   ensures  sorted: sortedNS(result)
+//@   ensures  from_partitions: forall a int :: 0 <= a && a < len(result) ==> (exists p int32 :: in(p, m.Partitions) && tokOf(m.Partitions, p, result[a]))
+//@   ensures  all_tokens: forall p int32, j int :: in(p, m.Partitions) && 0 <= j && j < len(m.Partitions[p].Tokens) ==> (exists a int :: 0 <= a && a < len(result) && result[a] == m.Partitions[p].Tokens[j])
+//@   loop 0 invariant forall a int :: 0 <= a && a < len(allTokens) ==> (exists p int32 :: in(p, m.Partitions) && tokOf(m.Partitions, p, allTokens[a]))
+//@   ghost var off total[int32]int = havoc
+//@   loop 0 end off := store(off, $k, len(allTokens) - len(partition.Tokens))
+//@   loop 0 invariant same(m, old(m)) && (forall p int32 :: $visited[p] ==> 0 <= off[p] && off[p] + len(m.Partitions[p].Tokens) <= len(allTokens))
+//@   loop 0 invariant forall p int32, j int :: $visited[p] && 0 <= j && j < len(m.Partitions[p].Tokens) ==> allTokens[off[p] + j] == m.Partitions[p].Tokens[j]
+//@   modifies nothing
+//@
+//@ # the partition ring client as built by its constructor: the three parallel arrays describe the descriptor it was built from
+//@ # (every ring token is a token of the partition named at its position, which is registered; "active" is that partition's
+//@ # state in the descriptor; every token of every partition is a ring token; ring tokens ascending). Strict ascent
+//@ # (no token registered twice) is NOT established here: the partition ring has no conflict resolution, it is a
+//@ # precondition on the descriptor wherever prRep is required.
+//@ pred prLinked(r PartitionRing) = len(r.ringPartitionIDs) == len(r.ringTokens) && len(r.ringPartitionActive) == len(r.ringTokens) && sortedNS(r.ringTokens) &&
+//@      (forall j int :: 0 <= j && j < len(r.ringTokens) ==> in(r.ringPartitionIDs[j], r.desc.Partitions) && tokOf(r.desc.Partitions, r.ringPartitionIDs[j], r.ringTokens[j]) &&
+//@           (r.ringPartitionActive[j] <==> r.desc.Partitions[r.ringPartitionIDs[j]].State == PartitionActive)) &&
+//@      (forall p int32, j int :: in(p, r.desc.Partitions) && 0 <= j && j < len(r.desc.Partitions[p].Tokens) ==> (exists a int :: 0 <= a && a < len(r.ringTokens) && r.ringTokens[a] == r.desc.Partitions[p].Tokens[j]))
+//@ func NewPartitionRingWithOptions
+//@   property C15 C14 C12
+//@   ensures  built: r1 == nil ==> r0 != nil && prLinked(r0) && same(r0.desc, desc)
+//@   ensures  failed: r1 != nil ==> r0 == nil
+//@ func NewPartitionRing
+//@   property C15 C14
+//@   ensures  built: r1 == nil ==> r0 != nil && prLinked(r0) && same(r0.desc, desc)
